@@ -22,12 +22,14 @@ pub(crate) fn encpb(t: &[&str]) -> Option<String> {
         Some(handshake_schema::NoiseExtensions {
             webtransport_certhashes: spec::lb(ch)?,
             stream_muxers: spec::lst(sm)?,
+            ..Default::default()
         })
     };
     let m = handshake_schema::NoiseHandshakePayload {
         identity_key: spec::ob(k)?,
         identity_sig: spec::ob(sg)?,
         extensions,
+        ..Default::default()
     };
     let bytes = m.encode_to_vec();
     Some(format!("ok {} ==> {}", hexd(&bytes), pb(&bytes)))
